@@ -13,7 +13,8 @@ theorem finInv_reachable {fails : Item → Bool} {st : State} (h : Reachable fai
   FinInv_reachable fails (fun _ hr => ShapeInv_reachable hr) st h
 
 /-- **C04 (nothing blocks).** After the receiver of a side has finished — the connection broke after
-any number of frames (`cut`) or was terminated — every `receive` and `waitclose` on every channel
+any number of frames (`cut`), was terminated, or a callback raised after the IO had been closed (the
+unwritable CLOSE_ERROR ends the receiver thread) — every `receive` and `waitclose` on every channel
 object that side still holds returns or raises; none can block, now or later (`finished` is stable). -/
 theorem C04_no_block {fails : Item → Bool} {st : State} (h : Reachable fails st) (p : Side) (id : Nat)
     (hf : (st.side p).finished = true) (ha : ((st.side p).chans id).alive = true) :
